@@ -21,7 +21,8 @@ type caseC06 struct {
 	U     uint64 `json:"u,omitempty"`
 }
 
-var c06ops = []string{"add", "sub", "mul", "square", "invert", "pow", "setuint64", "zero", "one", "minusone", "set", "copy"}
+// the multi-limb carry chains live in mul and square: they get a larger share of the cases
+var c06ops = []string{"add", "sub", "mul", "square", "invert", "pow", "setuint64", "zero", "one", "minusone", "set", "copy", "mul", "square", "mul", "square", "add", "sub"}
 
 var (
 	bigOne = big.NewInt(1)
@@ -46,7 +47,7 @@ var c06 = gen.Register(&gen.Check[caseC06]{
 			if rapid.Bool().Draw(t, "upat") {
 				c.U = gen.Limb().Draw(t, "u")
 			} else {
-				c.U = rapid.Uint64().Draw(t, "u")
+				c.U = gen.U64(t, "u")
 			}
 		}
 		if c.Op == "pow" && rapid.IntRange(0, 3).Draw(t, "smallexp") == 0 {
@@ -65,6 +66,15 @@ var c06 = gen.Register(&gen.Check[caseC06]{
 			mkC06("pow", nm1, nm1), mkC06("pow", two, new(big.Int).Lsh(bigOne, 255)),
 			mkC06("minusone", z, z), mkC06("one", two, z), mkC06("zero", two, z),
 			{Op: "setuint64", S: SV{Hex: gen.H(two)}, U: ^uint64(0)}, {Op: "setuint64", S: SV{Hex: gen.H(two)}, U: 0},
+		}
+		// exhaustive: every scalar whose four Montgomery limbs are taken from LimbPatterns (10^4 values, those < n kept),
+		// through the one-operand operations and the aliased two-operand ones
+		for _, m := range gen.WordProducts(new(big.Int), 64, func(w, mask uint64) []uint64 { return gen.LimbPatterns }) {
+			if m.Cmp(ref.N) >= 0 {
+				continue
+			}
+			sv := SV{Hex: gen.H(m), Mont: true}
+			out = append(out, caseC06{Op: "square", S: sv, T: sv}, caseC06{Op: "mul", S: sv, T: sv, Alias: true}, caseC06{Op: "add", S: sv, T: sv, Alias: true})
 		}
 		for _, op := range []string{"add", "sub", "mul", "pow", "set"} {
 			c := mkC06(op, big.NewInt(7), two)
